@@ -487,7 +487,7 @@ def run(ctx) -> Report:
         rule="one run of the real authenticator per (spec behaviour x hash) and per sampled "
              "(kind, variant, hash, user, password, salt, iterations); distinct = distinct "
              "(kind, hash, user, salt length, iterations, reply, delivered server-first)",
-        exhaustive="server behaviours of the MC instance: all replayed; parameters: sampled",
+        exhaustive=False, exhaustive_parts="server behaviours of the MC instance: all replayed; parameters: sampled",
         spec_behaviours_replayed=len(behaviours),
         sampled_cases=sum(1 for c in cases if c["src"] == "sampled"),
         outcomes={"done": done, "abort_at_server_first": ab1, "abort_at_server_final": ab2,
